@@ -34,6 +34,9 @@ THEOREMS = [
     "Opacus.C05.gdp_expand",
     "Opacus.C05.empty_batch_accounted",
     "Opacus.C05.cost_perm_invariant",
+    # the tie to the source: Generated/AcctStep.lean is re-translated from accountants/{rdp,prv,gdp}.py on every run
+    "Opacus.C05.generated_step_eq_model",
+    "Opacus.C05.generated_step_accounts_once",
 ]
 RULE = (
     "case = (optimizer kind, Poisson?, accountant rdp|prv|gdp, history of epochs / BatchMemoryManager-style splits / scheduler writes / empty batches / "
@@ -41,6 +44,7 @@ RULE = (
     "(a skipped step OR a sigma change OR an empty batch OR an error outcome); distinct by (config, op sequence)"
 )
 TRUSTED = [
+    "the translator vharness/props/c05_trans.py (Python `ast` -> pure functions on the history list: pop / [-1] / append / rebinding / raise, subset in its docstring; anything else is reported as a broken tie) is trusted to render the three accountants' step() faithfully; float == is rendered as equality (NaN parameters are outside the model); the same methods are run against the model by the behavioural correspondence",
     "sample rates are observed as multiples k of q = 1/1000 (k recovered by rounding; |rate − q·k| < 1e-15 asserted)",
     "DistributedPerLayerOptimizer (noise inside backward hooks) is not in this machine; its accounting path is the same step_hook (see C18)",
 ]
@@ -291,7 +295,14 @@ def bmm_empty_batch_search(ctx):
             ctx.validated()
 
 
+def regenerate(ctx):
+    from .. import regen
+    from . import c05_trans as T
+    regen.regenerate(ctx, T, "Opacus.Generated.Acct", "accountants/{rdp,prv,gdp}.py:step")
+
+
 def run(ctx):
+    regenerate(ctx)
     with rig.default_dtype(torch.float64):
         cases = []
         n = ctx.n(140, 2500)
